@@ -595,6 +595,17 @@ func SetValue(dest, v reflect.Value) {
 	case reflect.Uint, reflect.Uint8, reflect.Uint16, reflect.Uint32, reflect.Uint64:
 		dest.SetUint(EnsureUint64(v.Interface()))
 		return
+	case reflect.String:
+		// a named string type (type Key string) as map key, map value or list element
+		if v.Kind() == reflect.String {
+			dest.SetString(v.String())
+			return
+		}
+	case reflect.Bool:
+		if v.Kind() == reflect.Bool {
+			dest.SetBool(v.Bool())
+			return
+		}
 	case reflect.Slice:
 		// a list whose registered Go type is not the one wanted here ([]*T for []T: both travel as "[T"), or
 		// an untyped list: convert element by element
